@@ -107,7 +107,7 @@ def configure(tier, avoid):
     quick = tier == 'quick'
     p = gen.Params(
         max_stmts=12 if quick else 24, max_depth=2, expr_depth=3,
-        max_procs=1, edgy=0.25, avoid=avoid, const_bias=0.6, dead_code=0.3,
+        max_procs=1, edgy=0.25, avoid=avoid, const_bias=0.6, dead_code=0.3, mixed_case_types=True,
         features={'input': False, 'devices': False})
     return {'examples': 200 if quick else 3000, 'params': p,
             'tier': tier, 'quick_sample': 2400,
